@@ -177,6 +177,8 @@ def gen_unit(rng, le, fmt, asz, version):
             fmt_fields.append((4, rng.choice([0x0f, 0x0b, 0x05])))    # DW_LNCT_size
         if rng.random() < 0.4:
             fmt_fields.append((5, 0x1e))                              # DW_LNCT_MD5 as DW_FORM_data16
+        if rng.random() < 0.35:
+            fmt_fields.append((0x2001, rng.choice([0x08, 0x0e, 0x1f])))   # a vendor string content type (DW_LNCT_LLVM_source): resolved like a path
         rng.shuffle(fmt_fields)
         rest += bytes([len(fmt_fields)]) + b''.join(_uleb(c) + _uleb(f) for c, f in fmt_fields)
         ents = b''
@@ -190,6 +192,8 @@ def gen_unit(rng, le, fmt, asz, version):
                     ents += num(form, f[2])
                 elif c == 4:
                     ents += num(form, f[3])
+                elif c == 0x2001:
+                    ents += path(form, b'inc' if f[0] == b'a.c' else b'/usr/src')
                 else:
                     ents += bytes(rng.randrange(256) for _ in range(16))
         rest += _uleb(len(files)) + ents
